@@ -15,6 +15,9 @@
 (*   returned error => permitted to fail, resource and value untouched      *)
 (*   move           => error of class NotImplemented                        *)
 (*   panic, timeout, a resource that can no longer be rendered: never       *)
+(*   after any call, no element object may be reachable twice inside the    *)
+(*   resource (dup = 0): the tree abstraction presupposes it, and a shared  *)
+(*   object makes a later patch of one element change another               *)
 (* The next step is judged from the OBSERVED tree, so one divergence does   *)
 (* not hide later ones.                                                     *)
 (***************************************************************************)
@@ -116,6 +119,11 @@ StepVerdict(o, k, cur, s) ==
   ELSE IF ~HintsOk(s.post, cur, dn) THEN mal("post-tree-hint")
   ELSE
   LET post == IF unchanged THEN cur ELSE Expand(s.post, cur, dn) IN
+  IF s.dup > 0 /\ s.out.k \in {"ok", "err"}
+  THEN (* the resource is no longer a tree of distinct objects: some element object is stored at two places, so *)
+       (* a later patch of one element changes another (and the tree abstraction itself no longer holds)       *)
+       bad(base("shared") \o "|" \o s.out.k \o "|element-object-stored-twice", post)
+  ELSE
   CASE s.out.k = "panic" ->
          bad(base("panic") \o "|" \o s.out.site \o (IF unchanged THEN "" ELSE "|resource-changed"), post)
     [] s.out.k = "timeout" -> bad(base("timeout"), post)
